@@ -52,7 +52,8 @@ type chain struct {
 	reqs      map[string]uint64
 	raw       map[uint64][]oracletypes.RawRequest
 	mine      map[uint64]bool
-	dsHash    map[int64]string // data source id -> file hash
+	dsHash    map[int64]string        // data source id -> file hash
+	events    map[uint64][]abci.Event // request id -> events the chain emitted when the request was created
 }
 
 var (
@@ -73,7 +74,7 @@ func getChain(worker int) *chain {
 	for _, v := range bandtesting.Validators {
 		tssh.Must(w.Tx(ctx, 0, oracletypes.NewMsgActivate(v.ValAddress)), "activate")
 	}
-	c := &chain{w: w, reqs: map[string]uint64{}, raw: map[uint64][]oracletypes.RawRequest{}, mine: map[uint64]bool{}}
+	c := &chain{w: w, reqs: map[string]uint64{}, raw: map[uint64][]oracletypes.RawRequest{}, mine: map[uint64]bool{}, events: map[uint64][]abci.Event{}}
 	mkDS := func(name string, exe []byte) int64 {
 		tssh.Must(w.Tx(ctx, 0, oracletypes.NewMsgCreateDataSource(name, "d", exe, sdk.NewCoins(), bandtesting.Owner.Address, bandtesting.Owner.Address, bandtesting.Owner.Address)), "create ds")
 		return int64(w.App.OracleKeeper.GetDataSourceCount(ctx))
@@ -87,9 +88,16 @@ func getChain(worker int) *chain {
 	}
 	mkReq := func(name string, ids []int64, ask uint64) {
 		cd := obi.MustEncode(testdata.Wasm4Input{IDs: ids, Calldata: name})
-		tssh.Must(w.Tx(ctx, 0, oracletypes.NewMsgRequestData(4, cd, ask, 1, name, bandtesting.Coins100000000uband, bandtesting.TestDefaultPrepareGas, bandtesting.TestDefaultExecuteGas, bandtesting.FeePayer.Address, oracletypes.ENCODER_UNSPECIFIED)), "request "+name)
+		res := w.Tx(ctx, 0, oracletypes.NewMsgRequestData(4, cd, ask, 1, name, bandtesting.Coins100000000uband, bandtesting.TestDefaultPrepareGas, bandtesting.TestDefaultExecuteGas, bandtesting.FeePayer.Address, oracletypes.ENCODER_UNSPECIFIED))
+		tssh.Must(res, "request "+name)
 		id := w.App.OracleKeeper.GetRequestCount(ctx)
 		c.reqs[name] = id
+		// the events the chain really emitted for this message (request, raw_request, ...): what the node reports in the tx result
+		for _, e := range res.Events {
+			if e.Type == oracletypes.EventTypeRequest || e.Type == oracletypes.EventTypeRawRequest {
+				c.events[id] = append(c.events[id], abci.Event(e))
+			}
+		}
 		c.raw[id] = w.App.OracleKeeper.MustGetRequest(ctx, oracletypes.RequestID(id)).RawRequests
 	}
 	mkReq("A", []int64{c.dsShort, c.dsLong}, 3)
@@ -97,6 +105,7 @@ func getChain(worker int) *chain {
 	mkReq("C", []int64{c.dsLong}, 1)             // one validator only
 	mkReq("D", []int64{c.dsMid}, 3)
 	mkReq("E", []int64{c.dsLong, c.dsMid, c.dsShort}, 3)
+	mkReq("F", []int64{c.dsShort, c.dsMid, c.dsLong, c.dsShort, c.dsMid, c.dsLong, c.dsShort, c.dsMid, c.dsLong}, 3) // nine raw requests
 	// the daemon's validator: one that request C did NOT select
 	chosenC := w.App.OracleKeeper.MustGetRequest(ctx, oracletypes.RequestID(c.reqs["C"])).RequestedValidators[0]
 	for _, v := range bandtesting.Validators {
@@ -215,10 +224,22 @@ func (e fakeExec) Exec(exe []byte, arg string, env interface{}) (executor.ExecRe
 
 var dirSeq int64
 
-func txEvent(id uint64) abci.TxResult {
-	return abci.TxResult{Tx: []byte(fmt.Sprintf("tx-%d", id)), Result: abci.ExecTxResult{Code: 0, Events: []abci.Event{{
-		Type: oracletypes.EventTypeRequest, Attributes: []abci.EventAttribute{{Key: oracletypes.AttributeKeyID, Value: fmt.Sprint(id)}},
-	}}}}
+// txEvent is the tx result the node reports for one transaction that created the given requests (one MsgRequestData each):
+// the events the chain emitted for them, in order.
+func txEvent(c *chain, ids ...uint64) abci.TxResult {
+	var evs []abci.Event
+	for _, id := range ids {
+		evs = append(evs, c.events[id]...)
+	}
+	return abci.TxResult{Tx: []byte(fmt.Sprintf("tx-%v", ids)), Result: abci.ExecTxResult{Code: 0, Events: evs}}
+}
+
+// split turns scenario entries ("A", or "A+D" = two requests created by one transaction) into request names.
+func split(entries []string) (names []string) {
+	for _, e := range entries {
+		names = append(names, strings.Split(e, "+")...)
+	}
+	return
 }
 
 func scenario(name string, reqNames []string, maxTry uint64) gosched.Scenario {
@@ -255,8 +276,12 @@ func scenarioS(name string, reqNames []string, startup []string, maxTry uint64) 
 				yoda.VerifMarkPending(yc, id)
 				vsched.Go(func() { yoda.VerifHandleRequest(yc, l, id) })
 			}
-			for _, n := range reqNames {
-				ev := txEvent(c.reqs[n])
+			for _, entry := range reqNames {
+				var ids []uint64
+				for _, n := range strings.Split(entry, "+") {
+					ids = append(ids, c.reqs[n])
+				}
+				ev := txEvent(c, ids...)
 				vsched.Go(func() { yoda.VerifHandleTransaction(yc, l, ev) }) // `go handleTransaction(...)` in runImpl
 			}
 		}
@@ -275,7 +300,7 @@ func scenarioS(name string, reqNames []string, startup []string, maxTry uint64) 
 				byReq[uint64(m.RequestID)] = append(byReq[uint64(m.RequestID)], m)
 			}
 			var sig []string
-			for _, n := range reqNames {
+			for _, n := range split(reqNames) {
 				id := c.reqs[n]
 				got := byReq[id]
 				if !c.mine[id] {
@@ -392,6 +417,8 @@ func init() {
 				scenario("fetch-fails-persistently-repeated-source(maxTry=2)", []string{"B"}, 2),
 				scenarioS("pending-at-startup-and-event", []string{"D"}, []string{"D"}, 3),
 				scenario("repeated-source-and-foreign-request", []string{"B", "C"}, 3),
+				scenario("two-requests-created-by-one-transaction", []string{"A+D"}, 3),
+				scenario("nine-raw-requests", []string{"F"}, 3),
 			}
 			if !quick {
 				scs = append(scs, scenario("two-requests-concurrently", []string{"D", "A"}, 3), scenario("three-raw-requests", []string{"E"}, 3), scenario("three-requests-concurrently", []string{"A", "B", "D"}, 3))
@@ -410,6 +437,19 @@ func init() {
 				if strings.HasPrefix(sc.Name, "fetch-fails") {
 					b.Faults = 2
 				}
+				if sc.Name == "nine-raw-requests" || sc.Name == "two-requests-created-by-one-transaction" {
+					b.Preemptions, b.Faults = 0, 1 // many goroutines: the non-preemptive schedules and one environment deviation
+					if sc.Name == "nine-raw-requests" {
+						// ten goroutines that all become runnable at once: even the non-preemptive schedules number 9!; the
+						// first 3000 (quick) / 200000 (thorough) in depth-first order are run, reported as a capped search
+						b.Faults, b.MaxExecutions = 0, 3000
+						if !quick {
+							b.MaxExecutions = 200000
+						}
+					} else if !quick {
+						b.Preemptions, b.Faults = 1, 1
+					}
+				}
 				st := gosched.Explore(sc, b)
 				r.States += int(st.Executions)
 				r.Transitions += int(st.Points)
@@ -421,7 +461,11 @@ func init() {
 				}
 				if !st.Exhaustive {
 					r.Exhaustive = false
-					r.CapReasons = append(r.CapReasons, sc.Name+": cap")
+					reason := "time cap"
+					if b.MaxExecutions > 0 && st.Executions >= b.MaxExecutions {
+						reason = fmt.Sprintf("execution cap %d (first schedules in depth-first order)", b.MaxExecutions)
+					}
+					r.CapReasons = append(r.CapReasons, sc.Name+": "+reason)
 				}
 				for i, s := range st.Samples {
 					if i < 2 {
